@@ -7,7 +7,7 @@ import json, os, shutil, subprocess, sys, glob, time
 
 EXTRA = {"C02": ["C03", "C08", "C17"], "C03": ["C02", "C10", "C08"], "C04": ["C11", "C05", "C03"], "C10": ["C03"], "C11": ["C04", "C08"], "C14": [],
          "C05": ["C01", "C16"], "C01": ["C05"], "C16": ["C05", "C06"], "C06": ["C12", "C16"], "C12": ["C06"], "C13": ["C06"]}
-MIRROR = "/tmp/vseed"
+MIRROR = "/tmp/vseed"   # + "_" + property: one mirror per property so that concurrent runs do not collide
 
 def sh(cmd, cwd=None, env=None, timeout=3600):
     e = dict(os.environ); e["CARGO_NET_OFFLINE"] = "true"
@@ -16,10 +16,12 @@ def sh(cmd, cwd=None, env=None, timeout=3600):
     return p.returncode, p.stdout + p.stderr
 
 def mirror(wt):
-    os.makedirs(MIRROR, exist_ok=True)
-    sh("rsync -a --delete --exclude build --exclude .git --exclude evidence --exclude replays --exclude seeded /verif/ %s/" % MIRROR)
-    sh("sed -i 's#/repo/#%s/#g' %s/harness/Cargo.toml" % (wt, MIRROR))
-    os.makedirs(MIRROR + "/build", exist_ok=True)
+    m = MIRROR + "_" + os.path.basename(wt)
+    os.makedirs(m, exist_ok=True)
+    sh("rsync -a --delete --exclude build --exclude .git --exclude evidence --exclude replays --exclude seeded /verif/ %s/" % m)
+    sh("sed -i 's#/repo/#%s/#g' %s/harness/Cargo.toml" % (wt, m))
+    os.makedirs(m + "/build", exist_ok=True)
+    return m
 
 def main():
     for prop in sys.argv[1:]:
@@ -46,14 +48,14 @@ def main():
             rc, out = sh("cargo run --offline -q -p rspirv --example %s 2>&1 | tail -3" % ex, cwd=wt)
             rcx, _ = sh("cargo run --offline -q -p rspirv --example %s >/dev/null 2>&1" % ex, cwd=wt)
             res["ran"]["demo_with_patch"] = {"exit": rcx, "tail": out.strip()[-300:]}
-            mirror(wt)
+            mdir = mirror(wt)
             checks = [prop] + EXTRA.get(prop, [])
             det = {}
             for c in checks:
-                if not os.path.exists("%s/vlib/%s.py" % (MIRROR, c.lower())):
+                if not os.path.exists("%s/vlib/%s.py" % (mdir, c.lower())):
                     continue
                 t0 = time.time()
-                rc, out = sh("./check %s --tier quick" % c, cwd=MIRROR, env={"VERIF_REPO": wt})
+                rc, out = sh("./check %s --tier quick" % c, cwd=mdir, env={"VERIF_REPO": wt})
                 vl = [l for l in out.split("\n") if l.startswith("VIOLATION") or "TOOL ERROR" in l or l.startswith("KNOWN")]
                 det[c] = {"rc": rc, "lines": vl[:3], "wall_s": round(time.time() - t0, 1)}
             res["ran"]["checks"] = det
